@@ -322,9 +322,10 @@ def cases(tier, seed):
         for two in (False, True):
             if two and not core and tier == "quick":
                 continue
-            h, name = harness(t, Nn if not two else 2, two)
+            n_two = 2 if tier == "quick" else 3
+            h, name = harness(t, Nn if not two else n_two, two)
             nm = "tree %s%s" % (name, "|x,y" if two else "|x")
-            cs.append(Case(nm + "|N=%d" % (Nn if not two else 2), h, key=nm, reset=eql_reset, core=True, timeout=300 if tier == "quick" else 1200,
+            cs.append(Case(nm + "|N=%d" % (Nn if not two else n_two), h, key=nm, reset=eql_reset, core=True, timeout=300 if tier == "quick" else 1200,
                            max_paths=50000 if tier == "quick" else 400000, validate=1, cex_grace=10**9))
     L_ = N()
     # (the trees for which a finding is already listed fail in the same branches with this history; they are not repeated)
@@ -351,7 +352,7 @@ def describe(tier):
         "alternative / next_rule blocks and combinations (<= 6 branches); one-variable and two-variable (base binds x and y) variants; the one-variable trees again after an evaluation of the same query object that was consumed partly (1-2 results) and dropped; the same trees over domain objects with field equality (distinct but equal objects); plus trees whose branches each bind a variable of their own (v_i.a == x.a, 1-2 values) and build their conclusion from it. "
         "Tree notation in case names: i(R[..] A[..] X[..]) = node i with refinement chain R, alternatives A, next rules X, numbered in written order; "
         "non-trivial = >= 2 feasible paths and some instance inferred",
-        bounds=dict(objects_per_domain="2 (quick) / 3 (thorough, one-variable)", values_and_thresholds="unbounded integers", branches="<= 6"),
+        bounds=dict(objects_per_domain="2 (quick) / 3 (thorough)", values_and_thresholds="unbounded integers", branches="<= 6"),
         outside=["sibling refinements of one node (their precedence is not stated by the property)", "alternatives written after a next_rule", "conclusions other than Add", "branches without a conclusion"],
         assumptions=["reference interpreter: a node emits its conclusion iff it is reached, its condition holds and no member of its refinement chain is active; "
                      "a chain member is active iff reached and no earlier member's condition held; next_rule branches are reached unconditionally"],
